@@ -48,6 +48,14 @@ def run_config(cfg):
         with open(path, "w") as f:
             f.write(render(kinds))
         args = ["test", path]
+        if cfg.get("split"):
+            # the same tests spread over two files given on one command line, named u1, u2, ... in EACH file
+            # (tests of different files may share a name; every one of them runs and counts)
+            k = cfg["split"]
+            for fname, part in (("a_test.gdn", kinds[:k]), ("b_test.gdn", kinds[k:])):
+                with open(os.path.join(d, fname), "w") as f:
+                    f.write(PRE + "".join(f"test u{i} {{\n  {BODY[x]}\n}}\n" for i, x in enumerate(part, 1)))
+            args = ["test", os.path.join(d, "a_test.gdn"), os.path.join(d, "b_test.gdn")]
         flt = cfg["filter"]
         if flt > 0:
             args += ["-n", f"t{flt}x_"]
@@ -84,6 +92,24 @@ def run(tier, seed):
         # every 1- and 2-test file, and the 3-test files thinned by a seed-rotated hash
         import zlib
         cfgs = [c for c in cfgs if len(c["kinds"]) <= 2 or (zlib.crc32(("|".join(c["kinds"]) + str(c["filter"])).encode()) + seed) % 4 == 0]
+    # two-file invocations of the unfiltered configurations with at least two tests
+    two = [dict(c, split=1 + (n % (len(c["kinds"]) - 1))) for n, c in enumerate(cfgs) if c["filter"] == 0 and len(c["kinds"]) >= 2]
+    if tier == "quick":
+        two = two[::3]
+    for c, (rc, failed, counts, out, err) in zip(two, pmap(run_config, two)):
+        ck.evaluated()
+        ck.validated()
+        key = f"C26 two files tests={','.join(c['kinds'])} split={c['split']}"
+        ck.nontrivial(key)
+        problem = None
+        if rc not in (0, 1):
+            problem = f"exit status {rc}: {err[-200:]}"
+        elif rc != c["exit"]:
+            problem = f"exit status {rc}, the model says {c['exit']}"
+        elif counts != (c["passed"], c["failed"]):
+            problem = f"summary says {counts}, the model says {(c['passed'], c['failed'])} (passed, failed)"
+        if problem:
+            ck.fail(key, f"{key}: {problem}", {"cmd": "garden test a_test.gdn b_test.gdn", "src": render(c["kinds"]), "filter": 0, "split": c["split"], "stdout": out[-400:]})
     results = pmap(run_config, cfgs)
     mixed = 0
     for c, (rc, failed, counts, out, err) in zip(cfgs, results):
